@@ -71,4 +71,6 @@ RULE_TEXT = ("no option is accepted and ignored: a parameter a function never us
 
 def run(ctx, col, modules: tuple, rule: str = "R-OPTION"):
     col.rule(rule, RULE_TEXT, floor=1)
-    return check(ctx, col, rule, tuple(modules))
+    n = check(ctx, col, rule, tuple(modules))
+    from . import deadstore
+    return n + deadstore.run(ctx, col, tuple(modules))
